@@ -17,36 +17,47 @@ def canon_answer(ans):
     toks = ans.split()
     if any(t.startswith("~") for t in toks):
         return "ok log2-bounds"
+    if len(toks) == 2 and toks[0] == "panic" and "nan" in toks[1].lower():
+        return "panic nan"  # log2_bounds(NaN): both builds panic, with different messages
     return ans
 
-LEVEL_TEXT = ("Machine-checked Coq theorems: complete certificates (a checked gcd/Bezout, root, root-with-remainder, integer-logarithm "
-              "or remove answer IS the gcd / truncated root / floor logarithm / full power), as-is models of the Newton n-th root "
-              "iteration, the three estimate-then-correct logarithm loops, the square-and-divide remove() and the primitive binary/"
-              "Euclidean gcd proved equal to their specifications for all inputs, the square-root pre/post-shift algebra, the no_std "
-              "log2 table proved an enclosure for every u8/u16 (finite, by computation, bound stated), and the bracket decision "
-              "procedure used for log2_bounds answers proved sound. Every implementation answer is decided per instance against these.")
+LEVEL_TEXT = ("Machine-checked Coq theorems (52 pinned in coq/props/C12.v, all inputs unless a finite domain is stated): complete "
+              "certificates (a checked gcd/Bezout, root, root-with-remainder, integer-logarithm or remove answer IS the gcd / truncated "
+              "root / floor logarithm / full power); as-is models proved against them: the Newton n-th root iteration of UBig/IBig::nth_root "
+              "and cbrt (correct from any positive first guess; from the repaired guess 2^ceil(bits/n) the climbing loop never runs and "
+              "fuel 2^ceil(bits/n)+1 suffices), the three estimate-then-correct logarithm loops for ANY estimate, the shortcuts of ilog, "
+              "remove() (power-of-two shortcut and square-and-divide), the primitive binary gcd with its division shortcut and the Euclidean "
+              "gcd_ext for every type width, the sqrt_rem_large pre/post-shift algebra around the kernel contract; the no_std log2 table "
+              "estimator proved an enclosure for EVERY u8/u16 value (finite domain 0..65535, by computation); the bracket decision procedure "
+              "that judges log2_bounds answers proved sound. Every implementation answer (std and no_std build) is decided per instance.")
 LEVEL_NOTE = ("Partial where said: the multi-word Lehmer gcd kernel, the Karatsuba square-root kernel and the table/Newton primitive "
               "roots are not modelled step by step; their answers are decided per instance by the complete certificates. The std "
-              "log2 estimator depends on libm's f32::log2 and is only checked per instance (bracket arithmetic, proved sound).")
+              "log2 estimator depends on libm's f32::log2, the no_std estimator for types wider than u16, the big-integer/float/rational "
+              "compositions and the floating-point estimate inside ilog are only checked per instance (bracket arithmetic, proved sound; "
+              "the ilog loops are proved for every estimate). log2 enclosures are stated as integer inequalities 2^m <= x^(2^k), not over R.")
 TECHNIQUE = "Coq proof (certificate completeness + as-is algorithm models) + extracted-checker correspondence run"
 RULE = ("cases = operation x call form x operands from: word-count classes {0,1,2,3,4,5,8,T-1,T,T+1,300+-1} x bit patterns (all-ones, 2^k, "
         "2^k+-1, trailing zero words, top word 1/MAX, sparse) x signs; gcd pairs incl. zero/equal/multiple/shared factor/Fibonacci/huge "
-        "quotient; radicands 0,1,r^n,r^n+-1 for n in {1,2,3,4,5,7,bits-1,bits,bits+1,huge}; (x,base) with x = base^e,+-1 for bases 2,2^k,3,10,"
-        "word,dword,multi-word; log2_bounds of integers, every primitive type, f32/f64 patterns, FBig in bases 2..36, rationals; "
-        "remove with planted exponents 0..70. Non-trivial = a certificate / bracket decision was evaluated on a non-degenerate input.")
+        "quotient; radicands 0,1,r^n,r^n+-1 for n in {1,2,3,4,5,7,bits-1,bits,bits+1,bits/3+1,huge}; (x,base) with x = base^e,+-1 for bases "
+        "2,2^k,3,10,word,dword,multi-word; log2_bounds of integers, every primitive type (EVERY u8/u16 value exhaustively), f32/f64 "
+        "patterns, FBig in bases 2..36, rationals; remove with planted exponents 0..70; every case in the std and the no_std build of "
+        "dashu-base, answers must agree except the f32 bounds. Non-trivial = a certificate / bracket decision was evaluated on a "
+        "non-degenerate input. asis=same|diff: the implementation answer equals the extracted as-is model (nth_root, cbrt, remove, "
+        "primitive gcd/gcd_ext incl. cofactors, sqrt_rem shift algebra, ilog shortcuts, no_std table bounds).")
 EXPLANATION = ("Theorems in coq/props/C12.v; the oracle evaluates the extracted certificates/specs on every implementation answer "
                "(harness/src/bin/c12.rs calls every API of observe_at in all call forms).")
 TRUSTED_BASE = [
-    "Coq 8.16.1 kernel (coqc; vm_compute used only for the finite no_std log2 table theorem, domain 1..65535 stated)",
+    "Coq 8.16.1 kernel (coqc; vm_compute used only for the finite no_std log2 table theorems, domain 0..65535 stated, and closed examples)",
     "extraction: ExtrOcamlBasic + ExtrOcamlZBigInt + coq/extract/FastZ.v directives (Z.gcd/Z.sqrt/Z.pow/Z.log2/shifts -> zarith)",
     "OCaml 4.13.1 + zarith 1.12, oracle/common.ml, oracle/driver_c12.ml (decoding of answers, choice of bracket precision); Rust harness harness/src/bin/c12.rs",
     "multi-word Lehmer gcd, Karatsuba square root and primitive table/Newton roots: decided per instance by certificates, not modelled step by step",
     "std log2 estimator: libm f32::log2/f64::log2 behaviour is observed only",
+    "LOG2_TAB of base/src/math/log.rs is transcribed by hand into Int/GrlLog2Tab.v (tied per run: the no_std build's answers for all u8/u16 equal the model)",
 ]
 ASSUMPTIONS = [
     "UBig::from_words / as_words / IBig::from_parts / as_sign_words transport values faithfully",
     "f32::to_bits of the returned bounds is the IEEE-754 binary32 encoding",
-    "no_std dashu-base is exercised through a separate probe crate (primitives only); big-number paths run with std",
+    "the no_std build is the harness built with default-features = false for all four crates (core.CONFIGS nostd); it is recognised at run time by 3u8.log2_bounds()",
 ]
 
 W = 64
@@ -246,8 +257,20 @@ def f64_bits(rng):
     return rng.bits(64)
 
 
+def sweep_cases(tier):
+    """finite domains of the quantifier, exhaustively: log2_bounds of every u8 / u16 value (both builds);
+    in the thorough tier also square / cube roots with remainder of every u8 / u16 value"""
+    out = ["plog2b u8 %x" % v for v in range(256)] + ["plog2b u16 %x" % v for v in range(65536)]
+    out += ["plog2b i8 %s" % hx(-v) for v in range(1, 129)] + ["plog2b i16 %s" % hx(-v) for v in range(1, 32769, 7)]
+    if tier == "thorough":
+        for op in ("psqrt_rem", "pcbrt_rem"):
+            out += ["%s u8 %x" % (op, v) for v in range(256)] + ["%s u16 %x" % (op, v) for v in range(65536)]
+    return out
+
+
 def gen_cases(rng, tier, n):
-    out = []
+    out = sweep_cases(tier) if n >= 5000 else []
+    n += len(out)
     while len(out) < n:
         k = rng.below(100)
         if k < 10:
